@@ -399,6 +399,11 @@ def prove_close(ctx: Ctx, name, fn, args, sp: Space, *, eps=1e-9, select=None, s
           ctx.error(name, f'abstraction sat but no concrete witness (leaf {li}, element {rid}, mass {dm[rid]:.3e}, tau {tau:.3e})')
           ok = False
           continue
+        if fn is None:
+          ctx.error(name, f'identity fails at leaf {li} element {rid}: residual {abs(_poly_value(sp, cols_all, vals_all, x)):.3e} > tol {float(taus[rid]):.3e} '
+                          f'at {dict((sp.names[i], round(float(x[i]), 6)) for i in range(min(len(x), 16)))} (no replay function for this clause)')
+          ok = False
+          continue
         rep = replay_point(fn, args, sp, x, li, rid, has_rhs=(b is not None))
         if rep['discrepancy'] > max(tau, 0.0) * 0.5 and rep['discrepancy'] > 0:
           idx = np.unravel_index(rid, diff.shape)
